@@ -438,12 +438,50 @@ def rule_memo(prog, rep):
         rep.finding("C18.MEMO", vo.name, "per-operation", "the operation validation context is not created per operation from that operation's variables", vo.loc())
 
 
+def rule_valtype(prog, rep):
+    """C18.VALTYPE: the type an inline fragment's selections are *validated* against.  With a type
+    condition it is that type; without one it is the parent's type, handed to
+    validate_inline_fragment by its caller - exactly as the built document types it (C18.INLINE).
+    If the fallback to the parent type is lost, `... { composite }` and `... @skip(..) { f(arg: $undefined) }`
+    are validated against no type at all and pass."""
+    rep.floor("C18.VALTYPE", 1)
+    f = prog.fn(r"^apollo_compiler::validation::fragment::validate_inline_fragment$")
+    hb = prog.hir_body(f)
+    parent = None
+    for i, p in enumerate(hb["params"]):
+        if p.get("k") == "bind" and re.search(r"Option<\(&.*Schema, &.*Name(dType)?\)>|Option<\(&'\w+ .*Schema", p.get("ty") or ""):
+            parent = "arg%d" % (i + 1)
+    if parent is None:
+        raise Undecided("validate_inline_fragment: the parent-type parameter (Option<(&Schema, &NamedType)>) was not found")
+    vals = set()
+    n = 0
+    for atoms, _e, path in enum_paths(f, inner_loops="cut"):
+        for b in path:
+            c = f.call_at(b)
+            if c is not None and c.name.endswith("selection::validate_selection_set") and len(c.args) >= 3:
+                n += 1
+                vals.add(re.sub(r"[&*]", "", f.sym_on_path(c.args[2], path)))
+    if not n:
+        raise Undecided("validate_inline_fragment: call to validate_selection_set not found")
+    own = any("type_condition" in v for v in vals)
+    fallback = parent in vals
+    ok = own and fallback
+    rep.obligation(ok)
+    if ok:
+        rep.instance("C18.VALTYPE", "validate_inline_fragment: selections are validated against the type condition when there is one (and a schema), otherwise against the parent type passed in")
+    else:
+        rep.finding("C18.VALTYPE", f.name, "parent-fallback" if own else "type-condition",
+                    "the selections of an inline fragment are validated against %s only; %s: fields under such a fragment are not checked against any type (missing sub-selections, undefined variables in arguments pass)" % (
+                        sorted(v[:90] for v in vals), "the parent type (`%s`) is never passed on for a fragment without a type condition" % parent if own else "the fragment's own type condition is never used"), f.loc())
+
+
 def run(prog, rep):
     rule_fielddef(prog, rep)
     rule_inline(prog, rep)
     rule_meta(prog, rep)
     rule_once(prog, rep)
     rule_memo(prog, rep)
+    rule_valtype(prog, rep)
     # `in a valid document spreads are acyclic`: the completeness conditions of the cycle search
     # (no Ok from inside the sibling loop; visited-set fresh per root) are shared with C21
     from .C21 import rule_search
